@@ -33,7 +33,9 @@ Definition run_scalar (c : which * snode) : list tuple :=
   end.
 
 (* shorthand used by the dumped cases *)
-Definition AI (v : Z) (e : bool) : atoi_res := {| ai_val := v; ai_err := if e then Some "err" else None |}.
+(* the integer as sign and magnitude: the case files do not import ZArith *)
+Definition AI (neg : bool) (v : N) (e : bool) : atoi_res :=
+  {| ai_val := if neg then Z.opp (Z.of_N v) else Z.of_N v; ai_err := if e then Some "err" else None |}.
 Definition PF (c : fcls) (e : bool) : pfloat_res := {| pf_val := c; pf_err := if e then Some "err" else None |}.
 
 (* handleYAMLError: (line, 0, class) per message *)
